@@ -191,6 +191,10 @@ func PreemptIn(fn string)       {}
 func NoSlowHolders() {}
 func Yield()                    { yieldNative() }
 
+// Busy: the caller is busy for a while (a critical section that takes longer than a
+// retry delay of somebody waiting for it).  Engine: a scheduling point.  Native: 400 ms.
+func Busy() { busyNative() }
+
 // Slow makes the caller take longer than the server's lock lease (native demonstrations only).
 func Slow() { slowNative() }
 func Concretize(x int) int      { return x }
